@@ -146,8 +146,36 @@ def is_plain_scalar(s):
             and node.style is None)
 
 
+_polluted = False
+
+
+def pollute_safe_loader():
+    """What many programs do to make PyYAML read 1e5 as a float: register one
+    more float resolver on yaml.SafeLoader (process-wide). yatiml's typing of
+    plain scalars must not depend on it."""
+    global _polluted, _loader
+    if _polluted:
+        return
+    import re
+    yaml.SafeLoader.add_implicit_resolver(
+        'tag:yaml.org,2002:float',
+        re.compile('''^(?:
+         [-+]?(?:[0-9][0-9_]*)\\.[0-9_]*(?:[eE][-+]?[0-9]+)?
+        |[-+]?(?:[0-9][0-9_]*)(?:[eE][-+]?[0-9]+)
+        |\\.[0-9_]+(?:[eE][-+][0-9]+)?
+        |[-+]?[0-9][0-9_]*(?::[0-5]?[0-9])+\\.[0-9_]*
+        |[-+]?\\.(?:inf|Inf|INF)
+        |\\.(?:nan|NaN|NAN))$''', re.X),
+        list('-+0123456789.'))
+    _polluted = True
+    _loader = Loader('')      # a Loader created after the registration
+
+
 def check(case, ctx):
     _setup()
+    if case.get('nonstock'):
+        pollute_safe_loader()
+        ctx.count('nonstock_base_table')
     s = case['s']
     if s.endswith('\n'):
         # not a possible plain scalar value; '$' in resolver regexes (PyYAML's
@@ -324,6 +352,12 @@ def enum_extensions(shard, nshards):
             i += 1
 
 
+def enum_nonstock(shard, nshards):
+    for i, w in enumerate(accepted_words()):
+        if i % nshards == shard:
+            yield {'s': w, 'nonstock': True}
+
+
 def number_like():
     digits = st.text(alphabet='0123456789', min_size=0, max_size=12)
     sign = st.sampled_from(['', '', '+', '-'])
@@ -357,4 +391,8 @@ def phases(tier):
                   'character inserted, replaced or deleted at every position'),
         HypPhase('generated_longer', number_like().map(lambda s: {'s': s}),
                  400 if quick else 6000),
+        # last: changes yaml.SafeLoader for the rest of the process
+        EnumPhase('nonstock_base_table', enum_nonstock,
+                  'every listed spelling with an additional float resolver registered on '
+                  'yaml.SafeLoader before the yatiml Loader is created'),
     ]
